@@ -1,8 +1,122 @@
 import Drv.Base
-open Lean Pdt
+import PdtModel.Model.Convert
+open Lean Pdt Pdt.Convert
 namespace Drv
 
-/-- op handler of the `Convert` layer (stub until the layer is built) -/
-def handleConvert (_op : String) (_j : Json) : Option (Except String Json) := none
+/-
+  op "convert_units": {"table": T, "to": TO, "conv": LOG|null, "dflt": LOG|null}
+    T   = {"name": str, "dests": [str], "index": [tok], "cols": [{"name": str, "unit": str, "vals": [tok]}]}
+    TO  = {"kind": "str", "s": str} | {"kind": "seq", "xs": [str|null]} | {"kind": "dict", "m": [[key, str|null]]}
+        | {"kind": "fn", "m": [[column name, str|null]]} | {"kind": "other"}
+    LOG = the converter's observed behaviour, one entry per call in call order:
+          {"vals": [tok], "from": str, "to": str|null, "ok": {"vals": [tok], "unit": str}} | {..., "exc": class name}
+  The model's converter answers call number k from entry k and only if the arguments agree with what the
+  real converter received; anything else is a protocol error (never a default).
+  Answer: {"res": {"exc": cls} | {"ref": n, "table": T}, "orig": T (frame 0 afterwards), "frames": n}
+-/
+
+def oracleMiss : Str := "<oracle-miss>".toList
+
+def strs (j : Json) (k : String) : Except String (List Str) := do
+  (← getArr j k).mapM (fun v => do let s ← v.getStr?; pure s.toList)
+
+def optStr (v : Json) : Except String (Option Str) :=
+  match v with
+  | .null => pure none
+  | _ => do let s ← v.getStr?; pure (some s.toList)
+
+def cvColOfJson (j : Json) : Except String Col := do
+  pure { name := ← getStr j "name", unit := ← getStr j "unit", vals := ← strs j "vals" }
+
+def cvTblOfJson (j : Json) : Except String Convert.Tbl := do
+  pure { name := ← getStr j "name", dests := ← strs j "dests", index := ← strs j "index",
+         cols := ← (← getArr j "cols").mapM cvColOfJson }
+
+def cvTblToJson (t : Convert.Tbl) : Json :=
+  Json.mkObj [("name", str t.name), ("dests", arr (t.dests.map str)), ("index", arr (t.index.map str)),
+    ("cols", arr (t.cols.map (fun c => Json.mkObj [("name", str c.name), ("unit", str c.unit),
+      ("vals", arr (c.vals.map str))])))]
+
+structure LogEntry where
+  vals : List Val
+  from_ : Str
+  to : Option Str
+  res : Except Str (List Val × Str)
+
+def logEntryOfJson (j : Json) : Except String LogEntry := do
+  let vals ← strs j "vals"
+  let f ← getStr j "from"
+  let to ← optStr (← j.getObjVal? "to")
+  let res ← match j.getObjVal? "exc" with
+    | .ok v => do let s ← v.getStr?; pure (Except.error s.toList)
+    | .error _ => do
+      let o ← j.getObjVal? "ok"
+      pure (Except.ok (← strs o "vals", ← getStr o "unit"))
+  pure ⟨vals, f, to, res⟩
+
+def convOfLog (log : List LogEntry) : Conv := fun k vals from_ to =>
+  match log[k]? with
+  | some e => if e.vals = vals ∧ e.from_ = from_ ∧ e.to = to then e.res else .error oracleMiss
+  | none => .error oracleMiss
+
+def convOfJson (j : Json) : Except String (Option Conv) :=
+  match j with
+  | .null => pure none
+  | _ => do
+    let a ← j.getArr?
+    let log ← a.toList.mapM logEntryOfJson
+    pure (some (convOfLog log))
+
+def pairsOfJson (j : Json) (k : String) : Except String (List (Str × Option Str)) := do
+  (← getArr j k).mapM (fun p => do
+    let a ← p.getArr?
+    match a.toList with
+    | [kk, v] => do let ks ← kk.getStr?; pure (ks.toList, ← optStr v)
+    | _ => throw "bad pair")
+
+def toOfJson (j : Json) : Except String To := do
+  let kind ← (← j.getObjVal? "kind").getStr?
+  match kind with
+  | "str" => do pure (.str (← getStr j "s"))
+  | "seq" => do pure (.seq (← (← getArr j "xs").mapM optStr))
+  | "dict" => do pure (.dict (← pairsOfJson j "m"))
+  | "fn" => do
+    let m ← pairsOfJson j "m"
+    pure (.fn (fun name => match m.find? (fun p => p.1 = name) with
+      | some p => p.2
+      | none => some "<fn-miss>".toList))
+  | "other" => pure .other
+  | _ => throw s!"unknown dispatcher kind {kind}"
+
+def errClass : Err → String
+  | .missingConverter => "MissingUnitConverterError"
+  | .notImplemented => "NotImplementedError"
+  | .valueError => "ValueError"
+  | .typeError => "TypeError"
+  | .unitConversionNotDefined => "UnitConversionNotDefinedError"
+  | .conv cls => String.ofList cls
+
+def handleConvert (op : String) (j : Json) : Option (Except String Json) :=
+  match op with
+  | "convert_units" => some do
+    let t ← cvTblOfJson (← j.getObjVal? "table")
+    let to ← toOfJson (← j.getObjVal? "to")
+    let conv ← convOfJson (← j.getObjVal? "conv")
+    let dflt ← convOfJson (← j.getObjVal? "dflt")
+    let w : World := [t]
+    let (w', res) := convertUnits w 0 (by simp [w]) to conv dflt
+    let orig := match w'[0]? with
+      | some o => cvTblToJson o
+      | none => Json.null
+    let resJ ← match res with
+      | .error (.conv cls) =>
+        if cls = oracleMiss then throw "converter oracle miss: the model called the converter with arguments the implementation did not use"
+        else pure (exc (String.ofList cls))
+      | .error e => pure (exc (errClass e))
+      | .ok r => match w'[r]? with
+        | some nt => pure (Json.mkObj [("ref", nat r), ("table", cvTblToJson nt)])
+        | none => throw "dangling table reference"
+    pure (Json.mkObj [("res", resJ), ("orig", orig), ("frames", nat w'.length)])
+  | _ => none
 
 end Drv
